@@ -271,6 +271,13 @@ def run(ctx):
                 for st, _ in res:
                     eq = [e for e in st.events if e[0] == 'count-eq-wait']
                     done = [e for e in st.events if e[0] == 'call' and e[1] in GIVE_BACK]
+                    if done and not (eq and eq[-1][1] is False):
+                        ctx.report(ri, key, f.where, 'Done(count - wait_count) is reached on a path that did not establish '
+                                   'count != wait_count: Done(0) is not a no-op — the counter\'s zero test (fetch_sub(0) == '
+                                   '0) fires the event again whenever the count happens to be zero at that moment, '
+                                   'although this call gave nothing back (the event is set twice / a reset group is '
+                                   'latched)')
+                        break
                     if not eq:
                         continue
                     if eq[-1][1] is False and len(done) != 1:
